@@ -395,8 +395,8 @@ def main(tier, seed, replay=None):
     common.ensure_worker("chk")
     run = common.Run(PROP, tier, seed)
     q = tier == "quick"
-    cases = [("perm", seed, i) for i in range(120 if q else 6000)]
-    cases += [("graph", seed, i) for i in range(200 if q else 10000)]
+    cases = [("perm", seed, i) for i in range(300 if q else 6000)]
+    cases += [("graph", seed, i) for i in range(600 if q else 10000)]
     cases += [("table", n, s, w) for n, s, w in dup_cases()]
     cases += [("table", n, s, w) for n, s, w in type_table()]
     for r in common.run_sharded(run_case, cases):
